@@ -27,10 +27,10 @@ def cases(tier, rng):
     #  other-refused: another application asks for a channel the server does not offer while a transfer is under way
     #  raw-idle: a stream that was opened and has not sent its first octet yet (a peer of the harness's own making, socket carriers)
     for c in (CARRIERS + ["unix", "wss", "tcp+tls"] if thorough else ["tcp", "ws", "kcp"]):
-        for sc in ("stall-up", "stall-down", "other-refused", "other-fails-late", "other-dials-slowly", "many-refused", "unix-listener"):
+        for sc in ("stall-up", "stall-down", "other-refused", "other-fails-late", "other-dials-slowly", "many-refused", "many-open", "unix-listener"):
             if not thorough and c != "tcp" and sc != "stall-up":
                 continue
-            if sc in ("many-refused", "unix-listener") and c not in ("tcp", "ws"):
+            if sc in ("many-refused", "many-open", "unix-listener") and c not in ("tcp", "ws"):
                 continue
             line = "c02 %s 3 %s" % (c, sc)
             cs.append({"line": line, "key": line, "model": False, "tags": {"carrier": c, "k": 3, "sc": sc}})
